@@ -563,6 +563,31 @@ def copy_sources(f, local, depth=0, seen=None):
     return out
 
 
+def receiver_fields(f, local):
+    """the named fields on the *copy chain* of a receiver (`&mut (*inner).groups_cache` -> {"groups_cache"}): what the receiver is a
+    reference to — not everything it data-depends on (flow-insensitive dependence through a shared `&mut self` reaches every field)"""
+    out = set()
+    todo, seen = [local], set()
+    while todo:
+        l = todo.pop()
+        if l in seen:
+            continue
+        seen.add(l)
+        for bb, kind, x in f.defs().get(l, []):
+            src = None
+            if kind == "stmt" and x.get("k") in ("use", "ref", "cast") and len(x["d"]) == 1 and x["o"] and "p" in x["o"][0]:
+                src = x["o"][0]["p"]
+            elif kind == "call" and x.dst and x.dst[0] == l and x.args and "p" in x.args[0] and x.name in (
+                    "deref", "deref_mut", "borrow", "borrow_mut", "as_ref", "as_mut", "write", "read", "lock", "unwrap", "expect", "get_mut", "clone"):
+                # through the guard: `self.group_snapshots.write()` -> guard -> deref_mut -> the map
+                src = x.args[0]["p"]
+            if src is None:
+                continue
+            out |= set(e[1:] for e in src[1:] if isinstance(e, str) and e.startswith(".") and not e[1:].isdigit())
+            todo.append(src[0])
+    return out
+
+
 def switch_depends_on(f, w, locals_set):
     """does the discriminant of switch block w data-depend on any of the locals (backward closure)?"""
     t = f.term(w)
